@@ -18,8 +18,10 @@ RULES = {
     'R4': 'max_line_length is written only by qb_log_init (constant) and qb_log_ctl2 (guarded by a lower and an upper bound); the resulting invariant is what R1/R2 assume',
     'R5': 'directive alphabet: dynamic formatter n f l p t T b g, static formatter P N H; "-" and digits consumed before the switch; unknown letters take the default branch',
     'R6': 'qb_log_real_va_: the buffer handed to cs_format has the capacity passed as maxlen on the stack and the heap branch',
+    'R7': 'the format scan never steps over the format\'s terminator: the step that follows a directive is taken only if the character it steps over is not NUL',
+    'R8': 'the formatted line is terminated at its write index: the terminating NUL is stored at output[idx] (not at an earlier position that later stores can overwrite) on every path',
 }
-FLOORS = {'R1': 14, 'R2': 6, 'R3': 3, 'R4': 3, 'R5': 4, 'R6': 3}
+FLOORS = {'R1': 14, 'R2': 6, 'R3': 3, 'R4': 3, 'R5': 4, 'R6': 3, 'R7': 2, 'R8': 1}
 
 MLL = 'max_line_length'      # canonical term of qb_log_target.max_line_length (engine.bounds.CANON_FIELDS)
 
@@ -143,6 +145,8 @@ def run(ctx):
     r3(ctx, lo, hi)
     r5(ctx)
     r6(ctx)
+    r7(ctx)
+    r8(ctx)
 
 
 def r3(ctx, lo, hi):
@@ -251,3 +255,62 @@ def r6(ctx):
     ok = bool(ups) and all(any(a.ls.endswith('max_line_length') and a.op == '>' and a.rs == cap for (a, _e) in f.guards(st)) for st in ups)
     ctx.check('R6', 'capacity-is-max-over-targets', ok, ups[0] if ups else f, 'the message capacity is the largest limit among the selected targets',
               'the message capacity is not the maximum of the selected targets\' limits')
+
+
+def r7(ctx):
+    prog = ctx.prog
+    for fname in ('qb_log_target_format', 'qb_log_target_format_static'):
+        f = prog.fn(fname)
+        cp = list(f.calls('_strcpy_cutoff'))
+        if len(cp) != 1:
+            raise AnalysisBroken('%s: copy calls = %d' % (fname, len(cp)))
+        # the format index: the variable that indexes the format in the switch condition
+        sws = [b for b in f.blocks.values() if b.term == 'SwitchStmt']
+        if len(sws) != 1 or unwrap(sws[0].cond).get('k') != 'idx':
+            raise AnalysisBroken('%s: directive switch not found' % fname)
+        iv = estr(unwrap(sws[0].cond)['i'])
+        fb_ = estr(unwrap(sws[0].cond)['b'])
+        steps = [st for st in f.events('STORE') if estr(st.lhs) == iv and st.d['op'] in ('++', '+=') and f.may_follow(cp[0], st) and
+                 not any(f.may_follow(st, cp[0]) and False for _ in [0])]
+        # only the steps between the copy and the loop's back edge: those in the block(s) the copy reaches without re-entering the switch
+        loops = f.natural_loops()
+        hdrs = [h for h, b in loops.items() if cp[0].blk in b]
+        if not hdrs:
+            raise AnalysisBroken('%s: the copy is not in the scan loop' % fname)
+        hdr = max(hdrs, key=lambda h: len(loops[h]))
+        steps = [st for st in steps if f.search(('after', cp[0]), goal=lambda ev, st=st: ev.d is st.d,
+                                                edge_filter=lambda fb, t, lab: t != hdr)[0]]
+        if not steps:
+            raise AnalysisBroken('%s: no step after the directive' % fname)
+
+        def not_nul(a, fb):
+            l = unwrap(a.l)
+            return a.op == '!=' and a.rc == 0 and l.get('k') == 'idx' and estr(l['b']) == fb_ and estr(l['i']) == iv
+        bad = [st for st in steps if f.uncut_path(st, not_nul, start=('after', cp[0])) is not None]
+        ctx.check('R7', '%s:no-step-over-terminator' % fname, not bad, bad[0] if bad else steps[0],
+                  'after a directive the scan advances only over a character that is not NUL',
+                  'after a directive the scan advances unconditionally: a format that ends inside a directive ("...%%", "%%-", "%%12", or a stored format cut at the line limit) '
+                  'is read beyond its terminator')
+
+
+def r8(ctx):
+    prog = ctx.prog
+    f = prog.fn('qb_log_target_format')
+    outp = f.params[-1]['n']
+    nul = [st for st in f.events('STORE') if unwrap(st.lhs).get('k') == 'idx' and estr(unwrap(st.lhs)['b']) == outp and cval(unwrap(st.rhs)) == 0]
+    if not nul:
+        raise AnalysisBroken('qb_log_target_format: no terminator store')
+    at_idx = [st for st in nul if unwrap(unwrap(st.lhs)['i']).get('k') == 'var']
+    early = [st for st in nul if st not in at_idx]
+    okp, _p = f.must_pass(('entry',), lambda ev: any(ev.d is st.d for st in at_idx)) if at_idx else (False, None)
+    # the early returns before anything was formatted (no format set) are not lines: allow paths that write nothing to the output
+    if not okp and at_idx:
+        wr = [ev for ev in f.events() if (ev.kind == 'STORE' and unwrap(ev.lhs).get('k') == 'idx' and estr(unwrap(ev.lhs)['b']) == outp) or
+              (ev.kind == 'CALL' and ev.callee == '_strcpy_cutoff')]
+        _h, exits, _n = f.search(('entry',), stop=lambda ev: any(ev.d is st.d for st in at_idx), edge_filter=None)
+        # an exit path that avoids the terminator must also avoid every write
+        okp = all(not any(f.blocks[b].events and any(e2.d is w.d for e2 in f.blocks[b].events for w in wr) for b in (p or [])) for p in (exits or []))
+    ctx.check('R8', 'terminated-at-write-index', okp and not early, (early or nul)[0],
+              'the line is terminated by a NUL stored at output[write index]',
+              'the terminating NUL is stored at an earlier position (%s) and the byte at the write index is left unset: the truncation mark, which is written '
+              'up to the write index, overwrites that terminator and the line is not terminated within its buffer' % (estr(early[0].lhs) if early else 'not on every path'))
